@@ -141,6 +141,25 @@ impl CodeSpec {
 /// with k = 3 use the general zeta(k) entry point rather than zeta3.
 /// OPT_DEFAULT = parameterless trait method (read_gamma, write_delta, ...).
 pub const OPT_DEFAULT: u8 = 255;
+/// OPT_ENUM = through the dynamic dispatch of the `Codes` enumeration (Codes::write / Codes::read)
+pub const OPT_ENUM: u8 = 254;
+
+pub fn codes_enum_of(c: &CodeSpec) -> Option<Codes> {
+    Some(match c.f {
+        Fam::Unary => Codes::Unary,
+        Fam::Gamma => Codes::Gamma,
+        Fam::Delta => Codes::Delta,
+        Fam::Omega => Codes::Omega,
+        Fam::VByteBe => Codes::VByteBe,
+        Fam::VByteLe => Codes::VByteLe,
+        Fam::Zeta => Codes::Zeta { k: c.k },
+        Fam::Pi => Codes::Pi { k: c.k },
+        Fam::Rice => Codes::Rice { log2_b: c.k },
+        Fam::ExpGolomb => Codes::ExpGolomb { k: c.k },
+        Fam::Golomb => Codes::Golomb { b: c.b as usize },
+        Fam::MinBin => return None,
+    })
+}
 
 pub trait DynWriter {
     fn write_bits(&mut self, v: u64, n: usize) -> Out<usize>;
@@ -394,6 +413,11 @@ fn do_write_code<E: Endianness, BW: AllWrite<E>>(
     opt: u8,
     v: u64,
 ) -> Result<usize, BW::Error> {
+    if opt == OPT_ENUM {
+        if let Some(e) = codes_enum_of(c) {
+            return DynamicCodeWrite::write(&e, w, v);
+        }
+    }
     let t0 = opt & 1 != 0;
     let t1 = opt & 2 != 0;
     match c.f {
@@ -549,6 +573,11 @@ fn do_read_code<E: Endianness, R: CodesRead<E>>(
     c: &CodeSpec,
     opt: u8,
 ) -> Result<u64, R::Error> {
+    if opt == OPT_ENUM {
+        if let Some(e) = codes_enum_of(c) {
+            return DynamicCodeRead::read(&e, r);
+        }
+    }
     let t0 = opt & 1 != 0;
     let t1 = opt & 2 != 0;
     match c.f {
